@@ -74,6 +74,8 @@ var registry = []Harness{
 		Quick:    [][]int{{0, 1, 3, 0}, {0, 3, 4, 0}, {0, 4, 4, 0}, {1, 4, 4, 0}, {2, 4, 3, 0}, {3, 4, 3, 0}, {0, 2, 4, 0}, {1, 2, 4, 0}, {2, 2, 4, 0}, {3, 2, 4, 0}, {3, 2, 3, 2}, {3, 2, 4, 2}},
 		Thorough: [][]int{{0, 1, 4, 0}, {0, 2, 4, 0}, {0, 3, 5, 0}, {0, 4, 5, 0}, {0, 5, 5, 0}, {0, 6, 5, 0}, {0, 7, 5, 0}, {1, 2, 4, 0}, {1, 3, 4, 0}, {1, 4, 5, 0}, {1, 7, 5, 0}, {2, 2, 4, 0}, {2, 3, 4, 0}, {2, 4, 4, 0}, {2, 7, 5, 0}, {3, 2, 4, 0}, {3, 3, 4, 0}, {3, 4, 4, 0}, {3, 7, 5, 0}},
 		Bound:    "NeoFS contract without Notary, n stored Alphabet keys (param 1), k invocations (param 2) of one method (param 0: setConfig/cheque/alphabetUpdate/innerRingCandidateRemove), each by a symbolic caller (member 0..n-1 or a stranger) for one of two decision ids after a symbolic gap of 0..25 blocks; reference model: live-ballot reading (DESIGN.md C17); n = 2 with k = 4 is the smallest setting in which one ballot stays pending while another fires and is then voted for again; after a candidate removal fired the history goes on with the other candidate; param 3 = r: candidate B registers only before step r, so a removal round can finish for a key that is not a candidate yet"},
+	{Prop: "C17", Unwind: 64, Pkg: "neofs", Func: "VerifC17ShrunkAlphabet", Link: []string{"neofs", "processing"},
+		Bound: "NeoFS without Notary, three stored keys: two votes for configuration ballot A and one for ballot B by symbolic members, then all three vote the Alphabet down to its first two keys (threshold 3 -> 2), then four more invocations by symbolic callers (A, A with another value, B, B with another value; the dropped key is refused); all within 20 blocks; the two configuration values against a model after every invocation"},
 	{Prop: "C19", Unwind: 64, Pkg: "neofs", Func: "VerifC17Ballots", Link: []string{"neofs", "processing"},
 		Quick:    [][]int{{1, 2, 4, 0}},
 		Thorough: [][]int{{1, 2, 4, 0}, {1, 3, 4, 0}, {1, 4, 5, 0}},
